@@ -47,6 +47,12 @@ type c09Inst interface {
 	Retained() ([][]byte, bool)
 }
 
+// c09Reconf is implemented by receivers whose configuration the application may change in mid-stream.
+type c09Reconf interface {
+	Reconf()        // flip the setting on this receiver
+	Fresh() c09Inst // a fresh receiver configured as this one is now
+}
+
 type c09Kind struct {
 	name  string
 	codec string
@@ -191,6 +197,26 @@ func (i instH265) Head(p []byte) bool         { return i.p.IsPartitionHead(p) }
 func (i instH265) Tail(m bool, p []byte) bool { return i.p.IsPartitionTail(m, p) }
 func (i instH265) Retained() ([][]byte, bool) { return nil, false }
 
+// instH265T: an H265Packet whose DONL setting is flipped between packets.
+type instH265T struct {
+	instH265
+	donl *bool
+}
+
+func (i instH265T) Reconf() { *i.donl = !*i.donl; i.p.WithDONL(*i.donl) }
+func (i instH265T) Fresh() c09Inst {
+	p := &codecs.H265Packet{}
+	p.WithDONL(*i.donl)
+	d := *i.donl
+	return instH265T{instH265{p}, &d}
+}
+
+// instH264T: an H264Packet whose exported IsAVC field is flipped between packets (scribble twin: both twins flip together).
+type instH264T struct{ instH264 }
+
+func (i instH264T) Reconf()        { i.p.IsAVC = !i.p.IsAVC }
+func (i instH264T) Fresh() c09Inst { return instH264T{instH264{&codecs.H264Packet{IsAVC: i.p.IsAVC}}} }
+
 type instForm struct {
 	feed func(p []byte) ([]byte, error, string)
 	meta func() string
@@ -225,6 +251,8 @@ var c09Kinds = []c09Kind{
 	{"vp9", "vp9", 0, func() c09Inst { return instVP9{&codecs.VP9Packet{}} }},
 	{"h265", "h265", 0, func() c09Inst { return instH265{&codecs.H265Packet{}} }},
 	{"h265-donl", "h265", 0, func() c09Inst { p := &codecs.H265Packet{}; p.WithDONL(true); return instH265{p} }},
+	{"h265-donl-toggled", "h265", 0, func() c09Inst { d := false; return instH265T{instH265{&codecs.H265Packet{}}, &d} }},
+	{"h264-framing-toggled", "h264", 1, func() c09Inst { return instH264T{instH264{&codecs.H264Packet{}}} }},
 	{"h265-single", "h265", 0, func() c09Inst {
 		v := &codecs.H265SingleNALUnitPacket{}
 		return instForm{func(p []byte) ([]byte, error, string) { o, e := v.Unmarshal(p); return o, e, metaSingle(v) }, func() string { return metaSingle(v) }}
@@ -299,6 +327,14 @@ func (s *c09Session) feed(c *fw.Ctx, p []byte, r *fw.Rand) bool {
 		return m
 	}
 	cp := func() []byte { return fw.Exact(p) }
+	if rc, ok := s.a.(c09Reconf); ok && len(s.history) > 1 && (r == nil && len(s.history)%3 == 0 || r != nil && r.Chance(1, 4)) {
+		// the application changes the receiver's configuration between two packets; the twin follows
+		rc.Reconf()
+		if s.b != nil {
+			s.b.(c09Reconf).Reconf()
+		}
+		c.Count("configuration_changes_in_mid_stream", 1)
+	}
 	// interleaved predicate calls
 	if r == nil || r.Chance(1, 2) {
 		if pv, st := fw.Guard(func() {
@@ -356,6 +392,9 @@ func (s *c09Session) feed(c *fw.Ctx, p []byte, r *fw.Rand) bool {
 	switch s.kind.mode {
 	case 0:
 		fresh := s.kind.mk()
+		if rc, ok := s.a.(c09Reconf); ok {
+			fresh = rc.Fresh()
+		}
 		var outF []byte
 		var errF error
 		var metaF string
